@@ -635,21 +635,30 @@ theorem setRq_inv (w : World) (fl : Nat → Nat) (o : Nat) (r r' : Rq) (hr : get
 
 /-- **queueing a reply** (`sendreply`): the caller's reference ends up in the client's reply queue, or is dropped
     when the reply cannot be built — exactly once either way -/
-theorem sendreply_inv (w : World) (fl : Nat → Nat) (o ci : Nat) (r : Rq) (c : Client) (h : Inv w fl)
-    (hr : getRq w o = some r) (hfrm : r.frm = some ci) (hc : getCli w ci = some c) (hfl : 1 ≤ fl o) :
+theorem sendreply_inv (w : World) (fl : Nat → Nat) (o : Nat) (h : Inv w fl) (hfl : 1 ≤ fl o) :
     Inv (sendreply w o) (fun x => fl x - one o x) := by
   unfold sendreply
-  rw [hr]
-  simp only [hfrm]
-  have h1 := setRq_inv w fl o r { r with replybuf := replyBytes w r (secretOfCli w ci), msg := none } hr rfl h
-  rw [hfrm] at h1
-  cases hb : replyBytes w r (secretOfCli w ci) with
-  | none =>
-    simp only [hb] at h1 ⊢
-    exact freerq_inv _ fl o h1 hfl
-  | some b =>
-    simp only [hb] at h1 ⊢
-    exact qPush_inv _ fl ci o c h1 (by unfold getCli setRq; exact hc) hfl
+  cases hr : getRq w o with
+  | none => have := (h.dead o hr).2; omega
+  | some r =>
+    simp only
+    cases hfrm : r.frm with
+    | none => exact freerq_inv w fl o h hfl
+    | some ci =>
+      simp only
+      have h1 := setRq_inv w fl o r { r with replybuf := replyBytes w r (secretOfCli w ci), msg := none } hr rfl h
+      rw [hfrm] at h1
+      cases hb : replyBytes w r (secretOfCli w ci) with
+      | none =>
+        simp only [hb] at h1 ⊢
+        exact freerq_inv _ fl o h1 hfl
+      | some b =>
+        simp only [hb] at h1 ⊢
+        split
+        · rename_i hsome
+          obtain ⟨c, hc⟩ := Option.isSome_iff_exists.mp hsome
+          exact qPush_inv _ fl ci o c h1 hc hfl
+        · exact freerq_inv _ fl o h1 hfl
 
 /-- table sizes: 256 outstanding slots per server, 256 duplicate-cache entries per client -/
 structure WF (w : World) : Prop where
